@@ -21,6 +21,8 @@ pub const TEXTS: &[&str] = &[
     "a", "b", "xyz", "Hello", "\u{3042}", "\u{30b3}\u{30f3}", "e\u{0301}", "\u{0301}", "q\u{0336}\u{0308}", "\u{200b}", "\0", "a\0b",
     "\u{7f}", "\u{85}", "\u{e9}", "\u{e0}q\u{5f}", "W\u{ff37}", "\u{416}\u{43e}", "abcdefghij", "jklmnopq`~", "\u{1f600}", "\u{ad}", "x\u{0308}\u{0301}y",
     "\u{18}", "\u{1a}", "\u{9b}", " ", "\u{feff}", "\u{2500}\u{2502}",
+    // a narrow symbol + variation selector 16 (one cell whose STRING is reported double-width), ZWJ, conjoining jamo, regional indicators
+    "\u{263a}\u{fe0f}z", "\u{2764}\u{fe0f}", "a\u{200d}b", "\u{1100}\u{1161}\u{11a8}", "\u{1f1e9}\u{1f1ea}", "\u{e01}\u{e33}",
 ];
 pub const SGRS: &[&[u32]] = &[&[0], &[1], &[31], &[7], &[4, 42], &[38, 5, 196], &[48, 2, 1, 2, 3], &[1, 3, 4, 5, 7, 9, 95, 104], &[27], &[39, 49]];
 
